@@ -272,8 +272,11 @@ BODIES = {
     "mul": (2, 1, lambda F: (lambda a, b: a * b)),
     "const": (1, 0, lambda F: (lambda a: 5)),
     "two": (2, 2, lambda F: (lambda a, b: [a * b, a + b])),
-    "nest": (1, 1, lambda F: (lambda a: _first(F["f"](a, a) if F["f"].nargs == 2 else F["f"](a)) * a)),
+    "nest": (1, 1, lambda F: (lambda a: _first(F["f"](a, a) if F["f"].nargs == 2 else (F["f"]() if F["f"].nargs == 0 else (F["f"](5) if F["f"].nargs == -1 else F["f"](a)))) * a)),
     "lin": (2, 1, lambda F: (lambda a, b: a * 2 - b)),
+    # no wire among the arguments: nothing / a plain number goes in, a computed wire comes out
+    "noarg": (0, 1, lambda F: (lambda: _Q["rt"].PrivVal(3) * _Q["rt"].PrivVal(4))),
+    "plainarg": (-1, 1, lambda F: (lambda k: _Q["rt"].PrivVal(k) * _Q["rt"].PrivVal(k + 1))),
 }
 
 
@@ -282,7 +285,7 @@ def _first(r):
 
 
 def histories(level):
-    fb = ["sq", "sqp1", "mul", "const", "two", "lin"]
+    fb = ["sq", "sqp1", "mul", "const", "two", "lin", "noarg", "plainarg"]
     gb = ["sq", "mul", "two", "nest", "lin"] if level == 0 else ["sq", "sqp1", "mul", "const", "two", "nest", "lin"]
     seqs = []
     for ln in (1, 2, 3) if level == 0 else (1, 2, 3, 4):
@@ -324,7 +327,7 @@ def run_history(h, p):
         def call(*args):
             r = dec(*args)
             res = r if isinstance(r, list) else [r]
-            calls.append((name, [a.value for a in args], [x.value for x in res if isinstance(x, rt.LinComb)]))
+            calls.append((name, [a.value for a in args if isinstance(a, rt.LinComb)], [x.value for x in res if isinstance(x, rt.LinComb)]))
             return r
         call.nargs = nargs
         return call
@@ -344,7 +347,7 @@ def run_history(h, p):
             a1, a2 = {"plain": (cur, y), "composite": (cur + 1, y + 2), "scaled": (cur * 3, y * (-1)),
                       # one wire whose linear combination still carries a cancelled / zero-scaled other wire
                       "cancelled": ((y + cur) - y, cur * 0 + y)}[form]
-            r = fn(a1, a2) if fn.nargs == 2 else fn(a1)
+            r = fn(a1, a2) if fn.nargs == 2 else (fn() if fn.nargs == 0 else (fn(5) if fn.nargs == -1 else fn(a1)))
             first = r[0] if isinstance(r, list) else r
             if isinstance(first, rt.LinComb):
                 cur = first
